@@ -1,0 +1,15 @@
+//go:build verif
+
+// Verification hook (never built without -tags verif): exports the segment-ID accumulator
+// computation of the extender for the differential checks in /verif (properties C22, C02).
+
+package beaconing
+
+import (
+	seg "github.com/scionproto/scion/pkg/segment"
+)
+
+// VerifNetExtractBeta is extractBeta.
+func VerifNetExtractBeta(pseg *seg.PathSegment) uint16 {
+	return extractBeta(pseg)
+}
